@@ -5,6 +5,8 @@ from .lifecycle import *
 from ..facts import RAW_WRITE_FNS
 from . import scans
 
+PER_TARGET = True      # every rule below looks at one target configuration at a time (check.py may fork one worker per target)
+USES_CONTROLS = True
 DECIDED = ("R3.1 who-may-write: every raw-memory write in the crate (raw copy/write primitives, stores through raw pointers, inline asm, foreign "
            "calls) is enumerated on every analysed target and must belong to the allow-list {the code copy, the byte reader's copy into its own "
            "buffer, the platform FFI table, the dsb/isb barrier}; R3.2 the copy is exact (count == len of the very slice whose pointer is the "
